@@ -578,6 +578,10 @@ func verifCopyOne(n ast.Node) (rows []string) {
 		st := "LOST"
 		if same {
 			st = "KEPT"
+			if verifShares(ov.Field(i), cv.Field(i)) {
+				// structurally equal, but (part of) the subtree is the original's own
+				st = "SHARED"
+			}
 		}
 		rows = append(rows, fmt.Sprintf("%s|%s|%s", name, f.Name, st))
 	}
@@ -630,73 +634,122 @@ func verifDeepSame(a, b reflect.Value) bool {
 	}
 }
 
+// verifShares reports whether the copy b reaches a node (other than an
+// identifier, which copyAST keeps on purpose) or a slice of the original a.
+func verifShares(a, b reflect.Value) bool {
+	if a.Kind() != b.Kind() {
+		return false
+	}
+	switch a.Kind() {
+	case reflect.Interface:
+		if a.IsNil() || b.IsNil() {
+			return false
+		}
+		return verifShares(a.Elem(), b.Elem())
+	case reflect.Ptr:
+		if a.IsNil() || b.IsNil() || a.Elem().Type() != b.Elem().Type() {
+			return false
+		}
+		switch a.Interface().(type) {
+		case *ast.Ident, *ast.Object, *ast.Scope:
+			return false
+		}
+		if a.Pointer() == b.Pointer() {
+			return true
+		}
+		return verifShares(a.Elem(), b.Elem())
+	case reflect.Struct:
+		for i := 0; i < a.NumField(); i++ {
+			if verifShares(a.Field(i), b.Field(i)) {
+				return true
+			}
+		}
+		return false
+	case reflect.Slice:
+		if a.Len() > 0 && b.Len() > 0 && a.Pointer() == b.Pointer() {
+			return true
+		}
+		for i := 0; i < a.Len() && i < b.Len(); i++ {
+			if verifShares(a.Index(i), b.Index(i)) {
+				return true
+			}
+		}
+		return false
+	default:
+		return false
+	}
+}
+
 // verifNodeProtos returns one fully populated instance of each concrete
 // go/ast node type that can occur inside a declaration.
 func verifNodeProtos() []ast.Node {
 	id := func(s string) *ast.Ident { return &ast.Ident{NamePos: 7, Name: s} }
+	// expression children are not bare identifiers (which copyAST keeps on
+	// purpose), so that a child shared with the original shows
+	ex := func(s string) ast.Expr { return &ast.ParenExpr{Lparen: 6, X: id(s), Rparen: 8} }
 	lit := &ast.BasicLit{ValuePos: 3, Kind: token.INT, Value: "42"}
 	fl := func() *ast.FieldList {
-		return &ast.FieldList{Opening: 5, Closing: 9, List: []*ast.Field{{Names: []*ast.Ident{id("a")}, Type: id("int"), Tag: &ast.BasicLit{Kind: token.STRING, Value: "`t`"}}}}
+		return &ast.FieldList{Opening: 5, Closing: 9, List: []*ast.Field{{Names: []*ast.Ident{id("a")}, Type: ex("int"), Tag: &ast.BasicLit{Kind: token.STRING, Value: "`t`"}}}}
 	}
 	blk := func() *ast.BlockStmt {
-		return &ast.BlockStmt{Lbrace: 4, Rbrace: 8, List: []ast.Stmt{&ast.ExprStmt{X: id("x")}}}
+		return &ast.BlockStmt{Lbrace: 4, Rbrace: 8, List: []ast.Stmt{&ast.ExprStmt{X: ex("x")}}}
 	}
 	ft := func() *ast.FuncType { return &ast.FuncType{Func: 2, Params: fl(), Results: fl()} }
 	protos := []ast.Node{
-		&ast.ArrayType{Lbrack: 2, Len: lit, Elt: id("int")},
-		&ast.AssignStmt{Lhs: []ast.Expr{id("a")}, TokPos: 3, Tok: token.DEFINE, Rhs: []ast.Expr{lit}},
+		&ast.ArrayType{Lbrack: 2, Len: lit, Elt: ex("int")},
+		&ast.AssignStmt{Lhs: []ast.Expr{ex("a")}, TokPos: 3, Tok: token.DEFINE, Rhs: []ast.Expr{lit}},
 		&ast.BadDecl{From: 2, To: 3},
 		&ast.BadExpr{From: 2, To: 3},
 		&ast.BadStmt{From: 2, To: 3},
 		&ast.BasicLit{ValuePos: 3, Kind: token.STRING, Value: `"s"`},
-		&ast.BinaryExpr{X: id("a"), OpPos: 3, Op: token.ADD, Y: lit},
-		&ast.BlockStmt{Lbrace: 4, Rbrace: 8, List: []ast.Stmt{&ast.ExprStmt{X: id("x")}}},
+		&ast.BinaryExpr{X: ex("a"), OpPos: 3, Op: token.ADD, Y: lit},
+		&ast.BlockStmt{Lbrace: 4, Rbrace: 8, List: []ast.Stmt{&ast.ExprStmt{X: ex("x")}}},
 		&ast.BranchStmt{TokPos: 3, Tok: token.GOTO, Label: id("L")},
-		&ast.CallExpr{Fun: id("f"), Lparen: 2, Args: []ast.Expr{id("a")}, Ellipsis: 6, Rparen: 9},
-		&ast.CaseClause{Case: 2, List: []ast.Expr{lit}, Colon: 4, Body: []ast.Stmt{&ast.ExprStmt{X: id("x")}}},
-		&ast.ChanType{Begin: 2, Arrow: 3, Dir: ast.RECV, Value: id("int")},
-		&ast.CommClause{Case: 2, Comm: &ast.ExprStmt{X: id("x")}, Colon: 4, Body: []ast.Stmt{&ast.ExprStmt{X: id("y")}}},
+		&ast.CallExpr{Fun: ex("f"), Lparen: 2, Args: []ast.Expr{ex("a")}, Ellipsis: 6, Rparen: 9},
+		&ast.CaseClause{Case: 2, List: []ast.Expr{lit}, Colon: 4, Body: []ast.Stmt{&ast.ExprStmt{X: ex("x")}}},
+		&ast.ChanType{Begin: 2, Arrow: 3, Dir: ast.RECV, Value: ex("int")},
+		&ast.CommClause{Case: 2, Comm: &ast.ExprStmt{X: ex("x")}, Colon: 4, Body: []ast.Stmt{&ast.ExprStmt{X: ex("y")}}},
 		&ast.Comment{Slash: 2, Text: "// c"},
 		&ast.CommentGroup{List: []*ast.Comment{{Slash: 2, Text: "// c"}}},
-		&ast.CompositeLit{Type: id("T"), Lbrace: 3, Elts: []ast.Expr{lit}, Rbrace: 9, Incomplete: true},
-		&ast.DeclStmt{Decl: &ast.GenDecl{Tok: token.VAR, Specs: []ast.Spec{&ast.ValueSpec{Names: []*ast.Ident{id("v")}, Type: id("int")}}}},
-		&ast.DeferStmt{Defer: 2, Call: &ast.CallExpr{Fun: id("f")}},
-		&ast.Ellipsis{Ellipsis: 2, Elt: id("int")},
+		&ast.CompositeLit{Type: ex("T"), Lbrace: 3, Elts: []ast.Expr{lit}, Rbrace: 9, Incomplete: true},
+		&ast.DeclStmt{Decl: &ast.GenDecl{Tok: token.VAR, Specs: []ast.Spec{&ast.ValueSpec{Names: []*ast.Ident{id("v")}, Type: ex("int")}}}},
+		&ast.DeferStmt{Defer: 2, Call: &ast.CallExpr{Fun: ex("f")}},
+		&ast.Ellipsis{Ellipsis: 2, Elt: ex("int")},
 		&ast.EmptyStmt{Semicolon: 2, Implicit: true},
-		&ast.ExprStmt{X: id("x")},
-		&ast.Field{Doc: &ast.CommentGroup{List: []*ast.Comment{{Text: "// d"}}}, Names: []*ast.Ident{id("a")}, Type: id("int"), Tag: &ast.BasicLit{Kind: token.STRING, Value: "`t`"}, Comment: &ast.CommentGroup{List: []*ast.Comment{{Text: "// e"}}}},
+		&ast.ExprStmt{X: ex("x")},
+		&ast.Field{Doc: &ast.CommentGroup{List: []*ast.Comment{{Text: "// d"}}}, Names: []*ast.Ident{id("a")}, Type: ex("int"), Tag: &ast.BasicLit{Kind: token.STRING, Value: "`t`"}, Comment: &ast.CommentGroup{List: []*ast.Comment{{Text: "// e"}}}},
 		fl(),
-		&ast.ForStmt{For: 2, Init: &ast.ExprStmt{X: id("i")}, Cond: id("c"), Post: &ast.ExprStmt{X: id("p")}, Body: blk()},
+		&ast.ForStmt{For: 2, Init: &ast.ExprStmt{X: ex("i")}, Cond: ex("c"), Post: &ast.ExprStmt{X: ex("p")}, Body: blk()},
 		&ast.FuncDecl{Doc: &ast.CommentGroup{List: []*ast.Comment{{Text: "// d"}}}, Recv: fl(), Name: id("f"), Type: ft(), Body: blk()},
 		&ast.FuncLit{Type: ft(), Body: blk()},
 		&ast.FuncType{Func: 2, TypeParams: fl(), Params: fl(), Results: fl()},
-		&ast.GenDecl{Doc: &ast.CommentGroup{List: []*ast.Comment{{Text: "// d"}}}, TokPos: 2, Tok: token.VAR, Lparen: 3, Specs: []ast.Spec{&ast.ValueSpec{Names: []*ast.Ident{id("v")}, Type: id("int")}}, Rparen: 9},
-		&ast.GoStmt{Go: 2, Call: &ast.CallExpr{Fun: id("f")}},
+		&ast.GenDecl{Doc: &ast.CommentGroup{List: []*ast.Comment{{Text: "// d"}}}, TokPos: 2, Tok: token.VAR, Lparen: 3, Specs: []ast.Spec{&ast.ValueSpec{Names: []*ast.Ident{id("v")}, Type: ex("int")}}, Rparen: 9},
+		&ast.GoStmt{Go: 2, Call: &ast.CallExpr{Fun: ex("f")}},
 		&ast.Ident{NamePos: 7, Name: "x"},
-		&ast.IfStmt{If: 2, Init: &ast.ExprStmt{X: id("i")}, Cond: id("c"), Body: blk(), Else: blk()},
+		&ast.IfStmt{If: 2, Init: &ast.ExprStmt{X: ex("i")}, Cond: ex("c"), Body: blk(), Else: blk()},
 		&ast.ImportSpec{Doc: &ast.CommentGroup{List: []*ast.Comment{{Text: "// d"}}}, Name: id("n"), Path: &ast.BasicLit{Kind: token.STRING, Value: `"p"`}, Comment: &ast.CommentGroup{List: []*ast.Comment{{Text: "// e"}}}, EndPos: 9},
-		&ast.IncDecStmt{X: id("x"), TokPos: 3, Tok: token.INC},
-		&ast.IndexExpr{X: id("a"), Lbrack: 2, Index: lit, Rbrack: 5},
-		&ast.IndexListExpr{X: id("a"), Lbrack: 2, Indices: []ast.Expr{id("int"), id("string")}, Rbrack: 5},
+		&ast.IncDecStmt{X: ex("x"), TokPos: 3, Tok: token.INC},
+		&ast.IndexExpr{X: ex("a"), Lbrack: 2, Index: lit, Rbrack: 5},
+		&ast.IndexListExpr{X: ex("a"), Lbrack: 2, Indices: []ast.Expr{ex("int"), ex("string")}, Rbrack: 5},
 		&ast.InterfaceType{Interface: 2, Methods: fl(), Incomplete: true},
-		&ast.KeyValueExpr{Key: id("k"), Colon: 3, Value: lit},
-		&ast.LabeledStmt{Label: id("L"), Colon: 3, Stmt: &ast.ExprStmt{X: id("x")}},
-		&ast.MapType{Map: 2, Key: id("string"), Value: id("int")},
-		&ast.ParenExpr{Lparen: 2, X: id("x"), Rparen: 4},
-		&ast.RangeStmt{For: 2, Key: id("k"), Value: id("v"), TokPos: 4, Tok: token.DEFINE, Range: 5, X: id("m"), Body: blk()},
+		&ast.KeyValueExpr{Key: ex("k"), Colon: 3, Value: lit},
+		&ast.LabeledStmt{Label: id("L"), Colon: 3, Stmt: &ast.ExprStmt{X: ex("x")}},
+		&ast.MapType{Map: 2, Key: ex("string"), Value: ex("int")},
+		&ast.ParenExpr{Lparen: 2, X: ex("x"), Rparen: 4},
+		&ast.RangeStmt{For: 2, Key: ex("k"), Value: ex("v"), TokPos: 4, Tok: token.DEFINE, Range: 5, X: ex("m"), Body: blk()},
 		&ast.ReturnStmt{Return: 2, Results: []ast.Expr{lit}},
-		&ast.SelectStmt{Select: 2, Body: &ast.BlockStmt{List: []ast.Stmt{&ast.CommClause{Body: []ast.Stmt{&ast.ExprStmt{X: id("y")}}}}}},
-		&ast.SelectorExpr{X: id("x"), Sel: id("f")},
-		&ast.SendStmt{Chan: id("c"), Arrow: 3, Value: lit},
-		&ast.SliceExpr{X: id("a"), Lbrack: 2, Low: lit, High: lit, Max: lit, Slice3: true, Rbrack: 8},
-		&ast.StarExpr{Star: 2, X: id("x")},
+		&ast.SelectStmt{Select: 2, Body: &ast.BlockStmt{List: []ast.Stmt{&ast.CommClause{Body: []ast.Stmt{&ast.ExprStmt{X: ex("y")}}}}}},
+		&ast.SelectorExpr{X: ex("x"), Sel: id("f")},
+		&ast.SendStmt{Chan: ex("c"), Arrow: 3, Value: lit},
+		&ast.SliceExpr{X: ex("a"), Lbrack: 2, Low: lit, High: lit, Max: lit, Slice3: true, Rbrack: 8},
+		&ast.StarExpr{Star: 2, X: ex("x")},
 		&ast.StructType{Struct: 2, Fields: fl(), Incomplete: true},
-		&ast.SwitchStmt{Switch: 2, Init: &ast.ExprStmt{X: id("i")}, Tag: id("t"), Body: &ast.BlockStmt{List: []ast.Stmt{&ast.CaseClause{List: []ast.Expr{lit}}}}},
-		&ast.TypeAssertExpr{X: id("x"), Lparen: 3, Type: id("T"), Rparen: 5},
-		&ast.TypeSpec{Doc: &ast.CommentGroup{List: []*ast.Comment{{Text: "// d"}}}, Name: id("T"), TypeParams: fl(), Assign: 4, Type: id("int"), Comment: &ast.CommentGroup{List: []*ast.Comment{{Text: "// e"}}}},
-		&ast.TypeSwitchStmt{Switch: 2, Init: &ast.ExprStmt{X: id("i")}, Assign: &ast.ExprStmt{X: &ast.TypeAssertExpr{X: id("x")}}, Body: &ast.BlockStmt{List: []ast.Stmt{&ast.CaseClause{List: []ast.Expr{id("int")}}}}},
-		&ast.UnaryExpr{OpPos: 2, Op: token.AND, X: id("x")},
-		&ast.ValueSpec{Doc: &ast.CommentGroup{List: []*ast.Comment{{Text: "// d"}}}, Names: []*ast.Ident{id("v")}, Type: id("int"), Values: []ast.Expr{lit}, Comment: &ast.CommentGroup{List: []*ast.Comment{{Text: "// e"}}}},
+		&ast.SwitchStmt{Switch: 2, Init: &ast.ExprStmt{X: ex("i")}, Tag: ex("t"), Body: &ast.BlockStmt{List: []ast.Stmt{&ast.CaseClause{List: []ast.Expr{lit}}}}},
+		&ast.TypeAssertExpr{X: ex("x"), Lparen: 3, Type: ex("T"), Rparen: 5},
+		&ast.TypeSpec{Doc: &ast.CommentGroup{List: []*ast.Comment{{Text: "// d"}}}, Name: id("T"), TypeParams: fl(), Assign: 4, Type: ex("int"), Comment: &ast.CommentGroup{List: []*ast.Comment{{Text: "// e"}}}},
+		&ast.TypeSwitchStmt{Switch: 2, Init: &ast.ExprStmt{X: ex("i")}, Assign: &ast.ExprStmt{X: &ast.TypeAssertExpr{X: ex("x")}}, Body: &ast.BlockStmt{List: []ast.Stmt{&ast.CaseClause{List: []ast.Expr{ex("int")}}}}},
+		&ast.UnaryExpr{OpPos: 2, Op: token.AND, X: ex("x")},
+		&ast.ValueSpec{Doc: &ast.CommentGroup{List: []*ast.Comment{{Text: "// d"}}}, Names: []*ast.Ident{id("v")}, Type: ex("int"), Values: []ast.Expr{lit}, Comment: &ast.CommentGroup{List: []*ast.Comment{{Text: "// e"}}}},
 	}
 	return protos
 }
